@@ -90,6 +90,10 @@ pub fn alphabet(scheme: Scheme, init_seq: u64, own_pub: &[u8], other_pub: &[u8])
     a.push(Op::Insert(k("client"), Val::B(Val::L(vec![b"Nimbus".to_vec(), b"v1".to_vec()]).canonical())));
     a.push(Op::Insert(k("client"), Val::B(Val::L(vec![b"a".to_vec(), b"b".to_vec(), b"c".to_vec()]).canonical())));
     a.push(Op::Insert(k("client"), Val::LL(vec![vec![b"Nimbus".to_vec(), b"v1".to_vec()]])));
+    // client lists of every shape (a list where a byte string belongs, four entries, empty, long entries)
+    for shape in gen::client_shapes() {
+        a.push(Op::InsertRaw(k("client"), crate::refimpl::rlp::enc_item(&shape)));
+    }
     a.push(Op::Insert(k("tcp"), Val::B(vec![0x82, 0x1f, 0x90])));
     a.push(Op::Insert(k("ll"), Val::LL(vec![vec![vec![1], vec![]], vec![]])));
     a.push(Op::Insert(vec![], Val::B(vec![1, 2])));
@@ -340,7 +344,8 @@ fn inits_uncached(scheme: Scheme, own: u64) -> Vec<(String, u64, Init)> {
         v.push(("built-foreign-key-entry".into(), 254, Init::Build(vec![BEntry::Seq(254), foreign.clone(), BEntry::Tcp4(1)])));
         v.push(("built-foreign-key-entry-near-max".into(), u64::MAX - 2, Init::Build(vec![BEntry::Seq(u64::MAX - 2), foreign])));
     }
-    for s in [0u64, 127, 255, 65_535, 0xffff_ffff, u64::MAX - 1, u64::MAX] {
+    // (2^63-1 / 2^63 and 2^31-1 / 2^31: where a signed 64- or 32-bit view of the number changes sign)
+    for s in [0u64, 127, 255, 65_535, 0xffff_ffff, u64::MAX - 1, u64::MAX, i64::MAX as u64, 1 << 63, 0x7fff_ffff, 0x8000_0000] {
         v.push((format!("built-seq-{s}"), s, Init::Build(vec![BEntry::Seq(s), BEntry::Add(b"x".to_vec(), Val::U8(9)), BEntry::Udp4(1)])));
     }
     // near the size limit: decoded records of exactly 290..=300 bytes (not under Miri: the padding
